@@ -1,3 +1,7 @@
+import Varint.Lemmas.Dict
+import Varint.Lemmas.Elias
+import Varint.Lemmas.PFOR
+import Varint.Lemmas.Group
 import Varint.Lemmas.Delta
 import Varint.Lemmas.RLE
 import Varint.Lemmas.FOR
@@ -31,6 +35,38 @@ theorem for_size_exact (xs : List Nat) :
     (FOR.enc xs).length = (FOR.analyze xs).encodedSize ∧
     (FOR.analyze xs).encodedSize = FOR.size (FOR.analyze xs).minValue xs.length (FOR.analyze xs).offsetWidth := by
   exact ⟨FOR.enc_length xs, rfl⟩
+
+
+/-- group: the size predictor is exact, and bounded by 1 + 16 + 8·fields -/
+theorem group_size_exact (xs : List Nat) (h : Group.Ok xs) :
+    (Group.enc xs).length = Group.size xs ∧ Group.size xs ≤ 1 + 16 + 8 * xs.length :=
+  ⟨Group.enc_length xs h, Group.size_le xs h⟩
+
+
+/-- PFOR: the size predictor is an upper bound of the bytes written (exact without exceptions) -/
+theorem pfor_extent_le_size (xs : List Nat) (g : PFOR.Good xs) (t : Nat) :
+    (PFOR.enc xs t).length ≤ PFOR.size (PFOR.compute xs t) ∧
+    ((PFOR.compute xs t).exceptionCount = 0 → (PFOR.enc xs t).length = PFOR.size (PFOR.compute xs t)) :=
+  ⟨PFOR.enc_length_le_size xs g t, PFOR.enc_length_eq_size_of_no_exc xs t⟩
+
+
+/-- Elias: the bytes written stay inside varintEliasGammaMaxBytes / DeltaMaxBytes; code lengths are the
+    documented 2⌊log2 v⌋+1 and ≤ 127 / ≤ 76 bits -/
+theorem elias_extent_le_max (xs : List Nat) (h : Elias.Pos64 xs) :
+    (Elias.encGamma xs).length ≤ Elias.gammaMaxBytes xs.length ∧
+    (Elias.encDelta xs).length ≤ Elias.deltaMaxBytes xs.length :=
+  ⟨Elias.encGamma_length_le xs h, Elias.encDelta_length_le xs h⟩
+
+theorem elias_code_lengths (v : Nat) (h1 : 1 ≤ v) (h64 : v < 2 ^ 64) :
+    (Elias.gamma v).length = Elias.gammaBits v ∧ (Elias.delta v).length = Elias.deltaBits v ∧
+    Elias.gammaBits v ≤ 127 ∧ Elias.deltaBits v ≤ 76 :=
+  ⟨Elias.gamma_length v, Elias.delta_length v, Elias.gammaBits_le v h1 h64, Elias.deltaBits_le v h1 h64⟩
+
+
+/-- dictionary: the size predictor is exact (and 0 exactly when the encoder refuses) -/
+theorem dict_size_exact (xs : List Nat) :
+    (Dict.enc xs ≠ [] → (Dict.enc xs).length = Dict.size xs) ∧ (Dict.size xs = 0 ↔ Dict.enc xs = []) :=
+  ⟨Dict.enc_length xs, Dict.size_eq_zero_iff xs⟩
 
 example : (RLE.encH [2 ^ 64 - 1]).length = 11 ∧ RLE.maxSize 1 = 19 := by decide
 
